@@ -256,6 +256,10 @@ LEMMAS = [
     Lemma("int-roundtrip", _int_roundtrip, "integer codecs: decode . encode = id on the full range given dec64(enc64(i)) == i"),
 ]
 
+from contracts import c12_extra  # noqa: E402
+
+CONTRACTS += c12_extra.CONTRACTS
+FINITE = c12_extra.FINITE
 BOUNDED = [Bounded("c12", "harness/c12.py", descr="real engines on every 1-,2-(,3-)byte group and random strings vs base64 under alphabet translation")]
 
 MUTANTS = [
@@ -268,4 +272,9 @@ MUTANTS = [
     ("_encode_int: little-endian range step", B, "            itr = range(0, bits, 6)\n", "            itr = range(0, bits - 6, 6)\n", "refute"),
     ("libpass encode big tail", LB, "            yield v1 >> 2\n            yield (v1 & 0x03) << 4\n", "            yield v1 >> 2\n            yield (v1 & 0x03) << 2\n", "refute"),
     ("harmless: temporaries", B, "            yield v1 & 0x3F\n            yield ((v2 & 0x0F) << 2) | (v1 >> 6)\n            yield ((v3 & 0x03) << 4) | (v2 >> 4)\n            yield v3 >> 2\n            idx += 1\n", "            first = v1 & 0x3F\n            yield first\n            yield (v1 >> 6) | ((v2 & 0x0F) << 2)\n            yield ((v3 & 0x03) << 4) | (v2 >> 4)\n            yield v3 >> 2\n            idx = idx + 1\n", "hold"),
+    ("decode_transposed_bytes writes byte k to position k instead of offsets[k]", B, "        for off, char in zip(offsets, tmp):\n            buf[off] = char", "        for off, char in zip(sorted(offsets), tmp):\n            buf[off] = char", "refute", "decode_transposed"),
+    ("encode_transposed_bytes reads source in order", B, "        tmp = bytes(source[off] for off in offsets)", "        tmp = bytes(source[off] for off in sorted(offsets))", "refute", "encode_transposed"),
+    ("_padinfo2: little-endian mask shifted by one", B, "        bits = 15 if self.big else (15 << 2)", "        bits = 15 if self.big else (15 << 1)", "refute", "repair-unused"),
+    ("_padinfo3: big-endian engines clear one bit only", B, "        bits = 3 if self.big else (3 << 4)", "        bits = 1 if self.big else (3 << 4)", "refute", "repair-unused"),
+    ("check_repair_unused: length 1 mod 4 returned unchanged", B, "        elif not tail:\n            return False, source\n        else:\n            raise ValueError(\"source length must != 1 mod 4\")", "        else:\n            return False, source", "refute", "repair-unused"),
 ]
